@@ -5,8 +5,9 @@ import numpy as np
 from .util import flt
 
 FORMS = {'float': float, 'int': int, 'np.float64': np.float64, 'np.float32': np.float32, 'np.int64': np.int64,
-         'np.float16': np.float16, 'np.int32': np.int32}
-INT_TAGS = ('int', 'np.int64', 'np.int32')
+         'np.float16': np.float16, 'np.int32': np.int32, 'np.uint8': np.uint8, 'np.uint16': np.uint16,
+         'np.uint64': np.uint64, 'np.uint32': np.uint32}
+INT_TAGS = ('int', 'np.int64', 'np.int32', 'np.uint8', 'np.uint16', 'np.uint32', 'np.uint64')
 
 
 def replay(w):
